@@ -10,6 +10,7 @@ siblings, bottom-up, until nothing changes.
                 top level `if c: return` ; REST -> if not c: REST;  if a: (if b: S) -> if a and b: S;
                 if c: return True else: return False -> return c;  x = A if c else B -> if c: x = A else: x = B (also return)
   loops         v = [] ; for ..: [if ..:] v.append(e) -> v = [e for .. if ..] (also set()/add);  for x in E: yield x -> yield from E
+  loop names    a name used only as the target of several (not nested) loops is one variable per loop
   locals        v = E ; <simple statement using v once, v dead afterwards> -> the statement with E in place of v
   expressions   range(0, n) -> range(n);  x[len(x) - 1] -> x[-1];  lambda a: f(a) -> f;  super(C, self) -> super();
                 [x for x in E] -> list(E)
@@ -333,9 +334,39 @@ class _Stmt(ast.NodeTransformer):
         return n
 
 
+def _split_loop_vars(fn):
+    """A name that is only ever a `for` target, and only read inside the loops that bind it, is a different variable in
+    each loop: each loop gets its own name (re-using `x` for two loops or not is a spelling)."""
+    targets = {}
+    for n in ast.walk(fn):
+        if isinstance(n, ast.For) and isinstance(n.target, ast.Name):
+            targets.setdefault(n.target.id, []).append(n)
+    for name, loops in targets.items():
+        if len(loops) < 2:
+            continue
+        inside = set()
+        nested = False
+        for lp in loops:
+            for x in ast.walk(lp):
+                if isinstance(x, ast.Name) and x.id == name:
+                    inside.add(id(x))
+                if x is not lp and isinstance(x, ast.For) and isinstance(x.target, ast.Name) and x.target.id == name:
+                    nested = True
+        everywhere = [x for x in ast.walk(fn) if isinstance(x, ast.Name) and x.id == name]
+        other_stores = [x for x in everywhere if not isinstance(x.ctx, ast.Load) and not any(x is lp.target for lp in loops)]
+        params = {a.arg for a in fn.args.posonlyargs + fn.args.args + fn.args.kwonlyargs}
+        if nested or other_stores or name in params or any(id(x) not in inside for x in everywhere):
+            continue
+        for k, lp in enumerate(loops):
+            for x in ast.walk(lp):
+                if isinstance(x, ast.Name) and x.id == name:
+                    x.id = "%s__loop%d" % (name, k)
+    return fn
+
+
 def canonical(fn_node):
     """Canonical copy of a FunctionDef."""
-    fn = copy.deepcopy(fn_node)
+    fn = _split_loop_vars(copy.deepcopy(fn_node))
     prev = None
     for _ in range(6):
         fn = _Expr().visit(fn)
